@@ -9,7 +9,8 @@ RULE = ("requirements rendered from structures name x extras list x (PEP 440 cla
         "swap incl. IGNORECASE confusables, non-ASCII word characters, Unicode whitespace, newline); every string 'a'+t, |t| <= 4/5 over a "
         "class-representative alphabet; related pairs (PEP 503 name spellings, clause order/spelling, extras order) for ==/hash; "
         "non-trivial = accepted by Requirement; distinct by input text")
-ASSUMPTIONS = ["marker literals containing a backslash are outside the modelled domain (ast.literal_eval is an oracle there); generated "
+ASSUMPTIONS = ["str.lower() on non-ASCII characters (canonicalize_name of an extra value inside a marker) is outside the model: inputs with such a character after the first ';' are dropped",
+               "marker literals containing a backslash are outside the modelled domain (ast.literal_eval is an oracle there); generated "
                "inputs containing a backslash are dropped",
                "hash(): only 'equal implies equal hash' is observed",
                "a non-ASCII word character adjacent to an identifier leads to rejection in both the implementation (\\b fails) and the "
@@ -89,15 +90,23 @@ def eq_pair(rng):
     return a, b, exp
 
 
+def outside_model(s):
+    """inputs the model does not cover: a backslash (ast.literal_eval on marker literals), and a non-ASCII character that str.lower()
+    changes inside the marker part (canonicalize_name of an extra value; the names model lower-cases ASCII only)"""
+    if "\\" in s: return True
+    i = s.find(";")
+    return i >= 0 and any(ord(c) > 127 and c.lower() != c for c in s[i:])
+
+
 def streams(rng, tier):
     q = tier == "quick"
     out = []
     pool = []
-    for _ in range(2500 if q else 60000):
+    for _ in range(6000 if q else 150000):
         R = G.rand_req(rng)
         canonical = rng.random() < 0.15
         s, lay, mt = rendered(rng, R, canonical)
-        if "\\" in s: continue
+        if outside_model(s): continue
         d7 = G.d7_class(R, lay)
         out.append(Case("structured", "r.parse", [s]))
         pool.append(s)
@@ -107,11 +116,11 @@ def streams(rng, tier):
             out.append(Case("law-roundtrip", "law.r.roundtrip", [s], kind="law"))
         if rng.random() < 0.35:
             t = G.mutate(rng, s)
-            if "\\" not in t:
+            if not outside_model(t):
                 out.append(Case("mutated", "r.parse", [t]))
                 if rng.random() < 0.3: out.append(Case("law-roundtrip", "law.r.roundtrip", [t], kind="law"))
     # the D7 class: a '===' clause immediately followed by a comma
-    for _ in range(150 if q else 3000):
+    for _ in range(300 if q else 6000):
         R = G.rand_req(rng, url_p=0, marker_p=0.2)
         n = rng.choice([2, 2, 3])
         R["clauses"] = [G.rand_clause(rng, arb_p=0) for _ in range(n)]
@@ -125,14 +134,14 @@ def streams(rng, tier):
         out.append(Case("d7-class", "r.parse", [s]))
         out.append(Case("law-roundtrip", "law.r.roundtrip", [s], kind="law"))
     # related pairs for == / hash
-    for _ in range(1200 if q else 25000):
+    for _ in range(2500 if q else 60000):
         a, b, exp = eq_pair(rng)
-        if "\\" in a + b: continue
+        if outside_model(a) or outside_model(b): continue
         out.append(Case("law-eq", "law.r.eq", [a, b, exp], kind="law"))
         out.append(Case("eq-pairs", "r.eq", [a, b]))
         if rng.random() < 0.2 and pool:
             out.append(Case("law-triple", "law.r.triple", [a, b, rng.choice(pool)], kind="law"))
-    for _ in range(300 if q else 5000):
+    for _ in range(600 if q else 10000):
         a, b = rng.choice(pool), rng.choice(pool)
         out.append(Case("eq-pairs", "r.eq", [a, b]))
     # a marker directly after a URL
@@ -141,7 +150,7 @@ def streams(rng, tier):
         R = G.rand_req(rng, url_p=1, marker_p=1)
         mt = G.render_marker(random.Random(rng.randrange(1 << 30)), R["marker"], rng.random() < 0.3)
         p = R["name"] + G.ws(rng) + "@" + G.ws(rng) + R["url"]
-        if "\\" in p + mt: continue
+        if outside_model(p + ";" + mt): continue
         out.append(Case("law-urlmarker", "law.r.urlmarker", [p, mt], kind="law"))
         out.append(Case("url-marker", "r.parse", [p + ";" + mt]))
         out.append(Case("url-marker", "r.parse", [p + rng.choice([" ", "\t", "  "]) + ";" + mt]))
